@@ -68,7 +68,11 @@ def run(ctl, I, sc):
             calls[0] += 1
             k = calls[0]
             return conc(c[k - 1], k) if k <= len(c) else False
-    t, f = I.split(source, cond)
+    try:
+        t, f = I.split(source, cond)
+    except Exception as e:          # split() itself never raises for these inputs: reported as an eager failure
+        ctl.log('Created', pulls=-1, calls=-1, exc=type(e).__name__)
+        return
     ctl.log('Created', pulls=pulls[0], calls=calls[0] if kind != 'bools' or sc.get('cform') == 'iter' else 0)
     its = {'T': t, 'F': f}
     for w in sc['order']:
@@ -78,6 +82,9 @@ def run(ctl, I, sc):
         except StopIteration:
             v = 0
             stop = True
+        except Exception as e:      # neither an element nor the end: an exception of the machinery
+            ctl.log('Next', w=w, stop=False, val=-2, exc=type(e).__name__, pulls=pulls[0], calls=calls[0] if kind != 'bools' else 0)
+            continue
         ctl.log('Next', w=w, stop=stop, val=v if isinstance(v, int) and not isinstance(v, bool) else -1,
                 pulls=pulls[0], calls=calls[0] if kind != 'bools' else 0)
     # exhaust(): consumes its whole argument and returns None
